@@ -124,6 +124,13 @@ impl McGroupStatusAnsCreator {
     }
 
     pub fn push(&mut self, group_id: u8, mc_addr: McAddr) -> Result<&mut Self, Error> {
+        // a report lists each of the (at most MAX_GROUPS) groups once
+        if group_id as usize >= MAX_GROUPS
+            || self.items >= MAX_GROUPS
+            || self.data[1] & (1 << group_id) != 0
+        {
+            return Err(Error::InvalidIndex);
+        }
         // update bitmask in status byte
         let bm = 1 << group_id;
         self.data[1] |= bm;
